@@ -50,6 +50,7 @@ func init() {
 		"(*sync.RWMutex).RLock":  nop,
 		"(*sync.RWMutex).RUnlock": nop,
 		"(*sync.Once).Do":        syncOnceDo,
+		"k8s.io/apimachinery/pkg/util/wait.ExponentialBackoff": waitExponentialBackoff,
 
 		// ---- fmt / errors ------------------------------------------------------
 		"fmt.Sprintf": fmtSprintf,
